@@ -668,7 +668,6 @@ def p2_configs (cfg):
       for plan, waits in ((ABA, [2]), (ABBA, [3]), (ABA, [])):
         if (bl, plan, waits) != (0, ABA, [2]): addb(bl, plan, waits, 1, 0)
   else:
-    addb(0, ABA, [2], 2, 1); addb(1, ABA, [2], 2, 1)
     for bl in range(len(BACKLOGS)):
       for plan, waits in ((ABA, [2]), (ABBA, [3]), (ABA, [])):
         addb(bl, plan, waits, 2, 0); addb(bl, plan, waits, 1, 1)
